@@ -165,7 +165,8 @@ def check_status(ck, sim, ep):
 def status_at_every_step(ck, mons, seed, hi):
     """The status query after EVERY single step (trigger or delivery of one datagram) of a history that starts before the handshake: an IKE_SA is reported
     with the values it has at that moment (an initiator knows its peer's SPI only after the IKE_SA_INIT response), and later queries follow the table."""
-    confs = [dict(), dict(ike_a={'encr': ['aes256'], 'integ': ['sha256'], 'prf': ['sha256'], 'dh': ['14', '19']}, ike_b={'encr': ['aes256'], 'integ': ['sha256'], 'prf': ['sha256'], 'dh': ['19']}), dict(v6=True)]
+    confs = [dict(), dict(ike_a={'encr': ['aes256'], 'integ': ['sha256'], 'prf': ['sha256'], 'dh': ['14', '19']}, ike_b={'encr': ['aes256'], 'integ': ['sha256'], 'prf': ['sha256'], 'dh': ['19']}), dict(v6=True),
+             dict(lifetime=-1), dict(lifetime=10 ** 9, dpd=10 ** 9), dict(lifetime=0)]        # (lifetimes at the edges: what the status answer computes from them must stay answerable)
     sc = walk.Scenario(seed, mons, dict(confs[hi % len(confs)]), handshake=False)
     sim = sc.sim
     sim.case.update({'family': 'status-at-every-step', 'history': hi})
@@ -203,7 +204,7 @@ def run(ck):
         if ck.counters['leaves'] % 300 == 1:
             ck.sample({'actions': sc.sim.case['actions'][:40]})
 
-    for hi in range(12 if not ck.thorough() else 240):
+    for hi in range(24 if not ck.thorough() else 240):
         if ck.mine(hi):
             status_at_every_step(ck, mons, base + 313 * hi, hi)
     # an IKE_SA that ends by a fatal error (an authenticated peer names a CHILD_SA SPI of an impossible size while the IKE_SA already has CHILD_SAs) leaves the
